@@ -652,6 +652,27 @@ class CSSStyleSheet(cssutils.stylesheets.StyleSheet):
             self._log.error('CSSStyleSheet: Invalid rules cannot be added.')
             return
 
+        # a rule brought from elsewhere may use namespaces not declared here
+        declared = list(self.namespaces.values())
+        for r in [rule] + list(getattr(rule, 'cssRules', ())):
+            if r.type != r.STYLE_RULE:
+                continue
+            for selector in r.selectorList:
+                for item in selector.seq:
+                    if (
+                        isinstance(item.value, tuple)
+                        and isinstance(item.value[0], str)
+                        and item.value[0]
+                        and item.value[0] not in declared
+                    ):
+                        self._log.error(
+                            'CSSStyleSheet: Namespace %r used by selector %r is '
+                            'not declared in this sheet.'
+                            % (item.value[0], selector.selectorText),
+                            error=xml.dom.NamespaceErr,
+                        )
+                        return
+
         # CHECK HIERARCHY
         # @charset
         if rule.type == rule.CHARSET_RULE:
